@@ -13,7 +13,8 @@ from .. import core, hub, proto as P
 from ..hub import T1, T2, ALL, HubConfig
 
 # R asks for A's id (refused while A is connected); X asks for an id outside the user range
-IDS = {"A": (11, 0), "B": (12, 0), "C": (0, 0), "R": (11, 0), "X": (150, 0), "G": (60, 1), "H": (61, 1), "M": (90, 0)}
+# P and Q are two instances of one id (both allow multiple instances)
+IDS = {"A": (11, 0), "B": (12, 0), "C": (0, 0), "R": (11, 0), "X": (150, 0), "G": (60, 1), "H": (61, 1), "M": (90, 0), "P": (70, 0), "Q": (70, 0)}
 
 
 def _ops(cfg: HubConfig, info) -> List[Tuple[str, List[List]]]:
@@ -28,8 +29,8 @@ def _ops(cfg: HubConfig, info) -> List[Tuple[str, List[List]]]:
         if s not in present:
             if not churn:
                 continue
-            if s in ("A", "G", "H"):
-                out.append((f"connect21({s})", a.connect_v2(s, name=s.encode())))
+            if s in ("A", "G", "H", "P", "Q"):
+                out.append((f"connect21({s})", a.connect_v2(s, name=s.encode(), allow_multiple=int(s in "PQ"))))
             elif s in ("B", "R", "X"):
                 out.append((f"connect1({s})", a.connect_v1(s)))
             else:  # C: CONNECT_V2 alone, dynamic id
@@ -59,7 +60,7 @@ def _ops(cfg: HubConfig, info) -> List[Tuple[str, List[List]]]:
 
 
 def build(tier="quick", tc=False, flip=False, subscribers="ABR", loggers="G", pairs="all", churn="", ctl="",
-          pre="") -> HubConfig:
+          pre="", nw_ops=False) -> HubConfig:
     slots = list(subscribers) + list(loggers) + ["M"]
     hid_vals = list(range(1, len(slots) + 1))
     if flip:
@@ -72,7 +73,7 @@ def build(tier="quick", tc=False, flip=False, subscribers="ABR", loggers="G", pa
         init += a.ctl("M", P.MT_SUBSCRIBE, t)
     init += [["settle"]]
     for s in pre:  # connected before the exploration starts (fixes the accept order)
-        init += (a.connect_v1(s) if s == "B" else a.connect_v2(s, name=s.encode())) + [["settle"]]
+        init += (a.connect_v1(s) if s == "B" else a.connect_v2(s, name=s.encode(), allow_multiple=int(s in "PQ"))) + [["settle"]]
     cfg = HubConfig(name=f"acks-{tier}-tc{int(tc)}-flip{int(flip)}-{subscribers}-{loggers}-{pairs}-{churn}-{ctl}-{pre}",
                     tc=tc, ids=ids, hids=hids, init=init, ops=_ops, probes=False, pairs=pairs, nonwritable=0,
                     props=("C19", "C03"))
@@ -81,6 +82,7 @@ def build(tier="quick", tc=False, flip=False, subscribers="ABR", loggers="G", pa
     cfg.churn = set(churn)
     cfg.ctl = set(ctl)
     cfg.tier = tier
+    cfg.nw_ops = nw_ops
     return cfg
 
 
@@ -97,6 +99,10 @@ def configs(tier: str) -> List[Any]:
             builder(tier=tier, subscribers="AB", loggers="G", pre="ABG", ctl="ABG", pairs="all"),
             # two loggers, one of them the sender, timecode header, reversed hash order
             builder(tier=tier, subscribers="B", loggers="GH", pre="B", churn="GH", ctl="BG", pairs="none", tc=True, flip=True),
+            # the sender (or a logger) is reported not writable in the very round its control frame is served
+            builder(tier=tier, subscribers="AB", loggers="G", pre="ABG", ctl="AB", pairs="none", nw_ops=True),
+            # two instances of one module id: the acknowledgement goes to the sending connection only
+            builder(tier=tier, subscribers="PQ", loggers="G", pre="PQG", ctl="PQ", churn="Q", pairs="none"),
         ]
     return [
         builder(tier=tier, subscribers="ARXC", loggers="GH", churn="ARXCGH", pairs="all"),
@@ -104,6 +110,8 @@ def configs(tier: str) -> List[Any]:
         builder(tier=tier, subscribers="AB", loggers="GH", pre="ABGH", ctl="ABGH", pairs="all"),
         builder(tier=tier, subscribers="AB", loggers="G", pre="GBA", ctl="ABG", pairs="all", tc=True, flip=True),
         builder(tier=tier, subscribers="AB", loggers="GH", pre="B", churn="AGH", ctl="ABG", pairs="all", flip=True),
+        builder(tier=tier, subscribers="AB", loggers="GH", pre="ABGH", ctl="ABG", pairs="none", nw_ops=True, tc=True),
+        builder(tier=tier, subscribers="APQ", loggers="G", pre="APQG", ctl="APQ", churn="PQ", pairs="all"),
     ]
 
 
